@@ -20,6 +20,13 @@ macro:max "b!" s:str : term => do
     `(($(Syntax.mkNumLit (toString b.toNat)) : UInt8))
   `(([$elems,*] : List UInt8))
 
+open Lean in
+/-- `t!"abc"` elaborates to the explicit list of code points `[97, 98, 99] : List Nat` -/
+macro:max "t!" s:str : term => do
+  let elems ← (s.getString.toList.toArray).mapM fun (c : Char) =>
+    `(($(Syntax.mkNumLit (toString c.toNat)) : Nat))
+  `(([$elems,*] : List Nat))
+
 /-- Python `data.endswith(suffix)`. -/
 def endsWith {α} [BEq α] (data suffix : List α) : Bool := suffix.isSuffixOf data
 
